@@ -429,7 +429,8 @@ def coutcome(o):
     return "OOk" if o == "Ok" else (f"(OErr {o})" if o in ERRS else "OOtherExc")
 
 
-def coq_case(res) -> str:
+def coq_case(res, tag="") -> str:
+    """Definitions (suffixed by tag) and one Eval for one case; prepend HEADER once per file."""
     lay = res["layout"]
     groups = []
     for g in lay:
@@ -437,24 +438,43 @@ def coq_case(res) -> str:
         groups.append(f"skel_group (zcfg {coq_bool(g['soap'])} {coq_bool(g['ada'])} {cnats(g['ignored'])}) {coq_bool(g['hasmom'])} "
                       f"{coq_bool(g['hasfilt'])} {cnats(g['pids'])} [{bl}]")
     names = res["names"]
+    t = tag
     k2p = "[" + "; ".join(f"({cs(n)}, {i}%nat)" for i, n in enumerate(names)) + "]"
     k2pl = "[" + "; ".join(f"({cs(names[i])}, {i}%nat)" for i in res["order_load"]) + "]"
     own = "[" + "; ".join(coutcome(o) for o in res["own_outcomes"]) + "]"
-    loads = [f"agree_load k2p_load s {cstate(m['state'])} {cstrs(m['groups'])} {coutcome(m['outcome'])}" for m in res["mal"]]
+    loads = [f"agree_load k2p_load{t} s{t} {cstate(m['state'])} {cstrs(m['groups'])} {coutcome(m['outcome'])}" for m in res["mal"]]
     malobs = [f"(MOwn, {coutcome(o)})" for o in res["own_outcomes"]]
     malobs += [f"({m['kind']}, {coutcome(m['outcome'])})" for m in res["mal"] if m["kind"].startswith("M")]
     resumed = "[" + ";\n  ".join(f"({k}%nat, [" + "; ".join(cZs(b) for b in tr) + "])" for k, tr in res["resumed"]) + "]"
-    return (HEADER + f"Definition s : opt_state (F:=Z) := [{'; '.join(groups)}].\n"
-            f"Definition k2p := {k2p}.\nDefinition k2p_load := {k2pl}.\n"
-            f"Definition own_state : list (string * list xkey) := {cstate(res['own_state'])}.\n"
-            f"Definition own_groups := {cstrs(res['own_groups'])}.\n"
-            f"Definition unint_i := ([{'; '.join(cZs(b) for b in res['ref'][:res['T'] + 1])}])%uint63.\n"
-            f"Definition resumed_i := ({resumed})%uint63.\n"
-            f"Definition unint := toZ unint_i.\nDefinition resumed := map (fun kr => (fst kr, toZ (snd kr))) resumed_i.\n"
-            f"Definition obs := mkObs unint resumed (map fst own_state) (map snd own_state) own_groups [{'; '.join(malobs)}].\n"
-            f"Eval vm_compute in show_bools (agree_save k2p s own_state own_groups :: agree_paths s own_state :: C09_checkb obs :: "
-            f"(let m := outcome_of (x_load k2p_load s (x_ckpt own_state own_groups)) in map (outcome_eqb m) {own}) ++ "
+    return (f"Definition s{t} : opt_state (F:=Z) := [{'; '.join(groups)}].\n"
+            f"Definition k2p{t} := {k2p}.\nDefinition k2p_load{t} := {k2pl}.\n"
+            f"Definition own_state{t} : list (string * list xkey) := {cstate(res['own_state'])}.\n"
+            f"Definition own_groups{t} := {cstrs(res['own_groups'])}.\n"
+            f"Definition unint_i{t} := ([{'; '.join(cZs(b) for b in res['ref'][:res['T'] + 1])}])%uint63.\n"
+            f"Definition resumed_i{t} := ({resumed})%uint63.\n"
+            f"Definition obs{t} := mkObs (toZ unint_i{t}) (map (fun kr => (fst kr, toZ (snd kr))) resumed_i{t}) (map fst own_state{t}) "
+            f"(map snd own_state{t}) own_groups{t} [{'; '.join(malobs)}].\n"
+            f"Eval vm_compute in show_bools (agree_save k2p{t} s{t} own_state{t} own_groups{t} :: agree_paths s{t} own_state{t} :: C09_checkb obs{t} :: "
+            f"(let m := outcome_of (x_load k2p_load{t} s{t} (x_ckpt own_state{t} own_groups{t})) in map (outcome_eqb m) {own}) ++ "
             f"[{'; '.join(loads)}]).\n")
+
+
+def coq_files(results, limit=350_000):
+    """Several cases per file (the imports cost 0.6 s per coqc run); returns (files, index: case -> (file, position))."""
+    files, index, cur, size = {}, {}, [], 0
+    for i, r in enumerate(results):
+        if "error" in r:
+            continue
+        txt = coq_case(r, f"_{i}")
+        if cur and size + len(txt) > limit:
+            files[f"c09_{len(files):04d}"] = HEADER + "".join(cur)
+            cur, size = [], 0
+        index[i] = (f"c09_{len(files):04d}", len(cur))
+        cur.append(txt)
+        size += len(txt)
+    if cur:
+        files[f"c09_{len(files):04d}"] = HEADER + "".join(cur)
+    return files, index
 
 
 # ------------------------------------------------------------------------------------------ verdicts
@@ -463,6 +483,8 @@ def classify(case, res, item):
     """Stable signatures of the known findings, from the failing input and the kind of failure."""
     if item[0] == "own" and item[1] == "KeyError" and has_leafless(res["layout"]):
         return "C09:own-checkpoint-keyerror-leafless-block"
+    if item[0] == "mal" and item[1]["outcome"] == "KeyError" and res["own_outcomes"][-1] == "KeyError" and has_leafless(res["layout"]):
+        return "C09:own-checkpoint-keyerror-leafless-block"     # the unmodified checkpoint does not load either: same defect
     if item[0] == "mal" and item[1]["kind"] == "MDelKey" and item[1]["outcome"] == "Ok" and item[1]["what"]["key_kind"] == "inner":
         return "C09:missing-inner-entry-accepted"
     return None
@@ -486,7 +508,7 @@ def run(ck: Check) -> None:
     jobs = [(c, ck.rng.randrange(1 << 30)) for c in cases]
     with mp.get_context("fork").Pool(16) as pool:
         results = pool.map(impl_worker, jobs, chunksize=1)
-    files = {f"c09_{i:04d}": coq_case(r) for i, r in enumerate(results) if "error" not in r}
+    files, index = coq_files(results)
     out = ck.eval_coq(files, timeout=1200)
 
     hist = {"kind": {}, "graft": {}, "groups": {}, "ignored": {}, "max_dim": {}, "momentum": {}, "beta1": {}, "T": {}, "blocks_per_param": {},
@@ -528,9 +550,8 @@ def run(ck: Check) -> None:
             hist["malformed"][key] = hist["malformed"].get(key, 0) + 1
         evaluations += len(res["own_outcomes"]) + len(res["mal"])
         nontrivial += res["nontrivial_k"]
-        v = out[f"c09_{i:04d}"]
-        assert len(v) == 1 and len(v[0]) == 3 + len(res["own_outcomes"]) + len(res["mal"]), (i, v)
-        v = v[0]
+        v = out[index[i][0]][index[i][1]]
+        assert len(v) == 3 + len(res["own_outcomes"]) + len(res["mal"]), (i, v)
         if v[2] != "T":
             bad_prop.append((i, v))
         elif "F" in v or not res["keys_by_k_same"]:
@@ -546,7 +567,8 @@ def run(ck: Check) -> None:
         dupl = [n for n, ks in res["own_state"] if len({json.dumps(k) for k in ks}) != len(ks)]
         if items:
             for it in items:
-                sig0 = (classify(case, res, it), it[0], it[1] if it[0] == "own" else (it[1]["kind"], it[1]["outcome"]))
+                sg = classify(case, res, it)
+                sig0 = sg if sg is not None else (it[0], it[1] if it[0] == "own" else (it[1]["kind"], it[1]["outcome"]))
                 if sig0 in seen:
                     continue
                 seen.add(sig0)
